@@ -1,286 +1,26 @@
 package main
 
-import (
-	"fmt"
-	"go/token"
-	"strings"
-
-	"golang.org/x/tools/go/ssa"
-)
-
 func init() {
 	register(&propDef{
 		id: "C21", run: runC21, minOblig: 10,
-		explanation: "Decides verify/guard discipline of PKCS#12 decoding: (MAC first) getSafeContents returns bags only behind verifyMac == nil over the authenticated-safe content bytes and the MacData of the same PFX (the documented empty-password retry included), a MAC mismatch is ErrIncorrectPassword, and the safe contents are decoded from the very bytes that were MACed; verifyMac compares with hmac.Equal, bounds the iteration count (evaluated) and derives the key with ID 3; (padding) in pbDecrypt the padding length taken from the last plaintext byte is used as a slice bound only for 1 <= ps <= blockSize and ps <= len (grid evaluation incl. 0, blockSize+1, 255) and empty / non-block-multiple ciphertexts are refused before CryptBlocks; the iteration count of the PBE parameters is bounded; (KDF block filling) fillWithRepeats evaluates to v*ceil(len/v) bytes for every pattern length 1..300 with v = 64 (RFC 7292 appendix B.2 steps 2-3, incl. the exact multiples 64/128/192) and the repeat count covers that length; (BMP strings) decodeBMPString rejects odd lengths before indexing pairs. NOT decided: KDF output values, OpenSSL interoperability, absence of every implicit panic.",
-		assumptions: []string{"crypto/hmac.Equal is constant-time equality", "bytes.Repeat(p, n) has length n*len(p)"},
+		explanation: "Decides verify/guard discipline of PKCS#12 decoding, independently of how the code is split into helpers. (MAC first, interprocedural must-cross) every accepting return of getSafeContents lies behind a branch on which a verifyMac verdict (the call's error, a phi of such errors for the documented empty-password retry, or the error of a package helper that hands such a verdict back) is nil; verifyMac is given the MacData and the AuthSafe.Content.Bytes of one and the same PFX object, and those very bytes are decoded only behind the verdict. (verifyMac, interpreted for 15 cases with pbkdf opaque) nil is returned exactly when a constant-time comparison (hmac.Equal / subtle.ConstantTimeCompare) of the stored digest with HMAC(key, message) holds, the key being pbkdf(MacSalt, password, Iterations, ID 3), which runs only for 0 <= Iterations <= maxIterations; a mismatch is ErrIncorrectPassword. (padding, pbDecrypt interpreted on byte contents for block sizes 8/16, lengths 1-3 blocks, padding bytes 0, 1, 2, bs-1, bs, bs+1, 2bs, ..., 255 and every single corrupted padding byte) the plaintext written by CryptBlocks is accepted only for 1 <= ps <= blockSize, ps <= len with the last ps bytes all equal to ps, the result is then the plaintext without them, otherwise an error; empty / non-block-multiple ciphertexts are refused before CryptBlocks; no index or slice leaves its operand. The PBE iteration count is bounded before any key/IV derivation (pbDecrypterFor interpreted for 7 counts x 2 algorithms). (KDF block filling) fillWithRepeats returns v*ceil(len/v) bytes with byte i = pattern[i mod len] for every pattern length 0..300 and v in {64,128} (RFC 7292 appendix B.2 steps 2-3, incl. the exact multiples). (BMP strings) decodeBMPString rejects odd lengths before decoding and consumes even lengths pair by pair within bounds (lengths 0..9, with and without terminator). NOT decided: KDF output values, OpenSSL interoperability, absence of every implicit panic.",
+		assumptions: []string{"crypto/hmac.Equal and crypto/subtle.ConstantTimeCompare are constant-time equality", "bytes.Repeat, bytes.Equal, bytes.HasSuffix, copy, append behave as documented (they are modelled on byte contents)", "a function of package pkcs12 returning a cipher.BlockMode (pbDecrypterFor) yields a decrypter with the block size it reports"},
 	})
-	tech("C21", "must-cross CFG rules, argument provenance, finite-domain evaluation of padding guards and of the KDF block-filling arithmetic")
+	tech("C21", "interprocedural must-cross (helpers expanded in place) with verdict provenance; abstract interpretation (pathWalker, helpers followed) on byte contents of verifyMac, pbDecrypt, pbDecrypterFor, fillWithRepeats, decodeBMPString")
 }
 
 func runC21(c *Ctx) {
 	sweepC21(c)
 	const pk = "pkcs12"
-	if f := c.fn(pk, "getSafeContents"); f != nil {
-		acc := acceptReturns(f, 2)
-		vm := callsNamed(f, "pkcs12.verifyMac")
-		// success = the last verifyMac's nil edge or the first's nil edge: the err tested before continuing is a phi
-		var pass []edge
-		for _, ci := range vm {
-			y, _ := errSuccessEdges(ci.(*ssa.Call))
-			pass = append(pass, y...)
-			for _, ev := range errResult(ci.(*ssa.Call)) {
-				for _, r := range *ev.Referrers() {
-					if ph, ok := r.(*ssa.Phi); ok {
-						y2, _ := edgesWhere(ph, isNil)
-						pass = append(pass, y2...)
-					}
-				}
-			}
-		}
-		c.mustCross("C21.mac-first", "getSafeContents", f, acc, pass, "verifyMac(...) == nil")
-		okArgs := len(vm) >= 1
-		var macd ssa.Value
-		for _, ci := range vm {
-			a := ci.Common().Args
-			_, f0, _, ok0 := fieldOf(a[0])
-			p1 := accessPath(a[1])
-			if !ok0 || f0 != "MacData" || !strings.HasSuffix(p1, "AuthSafe.Content.Bytes") {
-				okArgs = false
-			}
-			macd = a[1]
-		}
-		// the bags are decoded from the MACed bytes
-		decOK := false
-		for _, ci := range callsNamed(f, "pkcs12.unmarshal") {
-			if strings.HasSuffix(accessPath(ci.Common().Args[0]), "AuthSafe.Content.Bytes") && len(vm) > 0 && precedes(vm[0], ci) {
-				decOK = true
-			}
-		}
-		_ = macd
-		c.check(okArgs && decOK, "C21.mac-first", "getSafeContents MAC covers what is decoded", f, "the MAC is verified over AuthSafe.Content.Bytes, which is what is decoded afterwards", "the MAC is not verified over the bytes that are subsequently decoded")
-	}
-	if f := c.fn(pk, "verifyMac"); f != nil {
-		acc := acceptReturns(f, 0)
-		eq := callsNamed(f, "crypto/hmac.Equal")
-		c.mustCross("C21.mac", "verifyMac", f, acc, callSuccess(eq, 0, isTrue), "hmac.Equal(stored digest, computed MAC) == true")
-		// mismatch -> ErrIncorrectPassword
-		okErr := false
-		for _, e := range callFailure(eq, 0, isTrue) {
-			blk := e.to()
-			if r, ok := blk.Instrs[len(blk.Instrs)-1].(*ssa.Return); ok && accessPath(retVal(r, 0)) == "ErrIncorrectPassword" {
-				okErr = true
-			}
-		}
-		c.check(okErr, "C21.mac", "verifyMac mismatch", f, "a wrong MAC yields ErrIncorrectPassword", "a MAC mismatch does not yield ErrIncorrectPassword")
-		maxIt, _ := pkgConstInt(c, pk, "maxIterations")
-		kdf := callsNamed(f, "pkcs12.pbkdf")
-		bad := ""
-		if len(kdf) != 1 {
-			bad = "pbkdf call not found"
-		} else {
-			for _, n := range []int64{-1, 0, 1, 2048, maxIt, maxIt + 1, 1 << 40} {
-				e := newEnv()
-				e.bindField(f, "macData", "Iterations", n)
-				allInstrs(f, func(in ssa.Instruction) {
-					if call, ok := in.(*ssa.Call); ok && strings.HasSuffix(calleeName(&call.Call), ".Equal") && call != eq[0] {
-						e.bind(call, 1) // digest algorithm is SHA-1
-					}
-				})
-				e.solve(f)
-				if e.reach[kdf[0].Block()] != (n >= 0 && n <= maxIt) {
-					bad = fmt.Sprintf("iterations=%d: key derivation runs=%v (limit %d)", n, e.reach[kdf[0].Block()], maxIt)
-				}
-			}
-			if id, ok := constInt(kdf[0].Common().Args[6]); !ok || id != 3 {
-				bad = "the MAC key is not derived with ID 3"
-			}
-		}
-		c.check(bad == "", "C21.mac", "verifyMac iterations/ID", f, "iteration count bounded; MAC key derived with ID 3", bad)
-	}
-	// ---- pbDecrypt
-	if f := c.fn(pk, "pbDecrypt"); f != nil {
-		var ps ssa.Value // int(decrypted[len-1])
-		allInstrs(f, func(in ssa.Instruction) {
-			if cv, ok := in.(*ssa.Convert); ok {
-				if u, ok := cv.X.(*ssa.UnOp); ok && u.Op == token.MUL {
-					if _, isIA := u.X.(*ssa.IndexAddr); isIA {
-						ps = cv
-					}
-				}
-			}
-		})
-		var bs ssa.Value
-		for _, ci := range callsNamed(f, "pkcs12.pbDecrypterFor") {
-			for _, v := range resultN(ci.(*ssa.Call), 1) {
-				bs = v
-			}
-		}
-		var mk *ssa.MakeSlice
-		allInstrs(f, func(in ssa.Instruction) {
-			if m, ok := in.(*ssa.MakeSlice); ok {
-				mk = m
-			}
-		})
-		var cb ssa.CallInstruction
-		for _, ci := range calls(f, nameIs("invoke:(crypto/cipher.BlockMode).CryptBlocks")) {
-			cb = ci
-		}
-		bad := ""
-		if ps == nil || bs == nil || mk == nil || cb == nil {
-			bad = "anchors not found (padding length, block size, buffer, CryptBlocks)"
-		} else {
-			// slices bounded by psLen
-			var sls []*ssa.Slice
-			allInstrs(f, func(in ssa.Instruction) {
-				if sl, ok := in.(*ssa.Slice); ok && (dependsOn(sl.Low, ps, 4) || dependsOn(sl.High, ps, 4)) {
-					sls = append(sls, sl)
-				}
-			})
-			if len(sls) < 2 {
-				bad = "slices bounded by the padding length not found"
-			}
-			for _, L := range []int64{8, 16, 24} {
-				for _, B := range []int64{8} {
-					for _, P := range []int64{0, 1, 7, 8, 9, 16, 17, 255} {
-						e := newEnv()
-						e.bind(ps, P)
-						e.bind(bs, B)
-						allInstrs(f, func(in ssa.Instruction) {
-							if call, ok := in.(*ssa.Call); ok && calleeName(&call.Call) == "builtin:len" {
-								e.bind(call, L)
-							}
-						})
-						e.bindNilTests(f, func(v ssa.Value) bool { return strings.HasSuffix(v.Type().String(), "error") }, true)
-						e.solve(f)
-						want := P >= 1 && P <= B && P <= L
-						for _, sl := range sls {
-							if e.reach[sl.Block()] != want {
-								bad = fmt.Sprintf("len=%d blockSize=%d padding byte=%d: padding slice reached=%v, specification %v", L, B, P, e.reach[sl.Block()], want)
-							}
-						}
-					}
-				}
-			}
-			// empty / non-multiple refused before CryptBlocks
-			for _, tc := range []struct {
-				l, b int64
-				want bool
-			}{{0, 8, false}, {7, 8, false}, {8, 8, true}, {12, 8, false}, {16, 8, true}} {
-				e := newEnv()
-				e.bind(bs, tc.b)
-				allInstrs(f, func(in ssa.Instruction) {
-					if call, ok := in.(*ssa.Call); ok && calleeName(&call.Call) == "builtin:len" {
-						e.bind(call, tc.l)
-					}
-				})
-				e.bindNilTests(f, func(v ssa.Value) bool { return strings.HasSuffix(v.Type().String(), "error") }, true)
-				e.solve(f)
-				if e.reach[cb.Block()] != tc.want {
-					bad = fmt.Sprintf("ciphertext of %d bytes, block size %d: CryptBlocks reached=%v", tc.l, tc.b, e.reach[cb.Block()])
-				}
-			}
-		}
-		c.check(bad == "", "C21.padding", "pbDecrypt", f, "the padding byte bounds a slice only for 1 <= ps <= blockSize, ps <= len; malformed lengths refused before decryption", bad)
-		// padding content verified
-		acc := acceptReturns(f, 1)
-		c.mustCross("C21.padding", "pbDecrypt padding bytes", f, acc, callSuccess(callsNamed(f, "bytes.Equal"), 0, isTrue), "bytes.Equal(padding, repeat(ps))")
-	}
-	if f := c.fn(pk, "pbDecrypterFor"); f != nil {
-		maxIt, _ := pkgConstInt(c, pk, "maxIterations")
-		var dk ssa.CallInstruction
-		for _, ci := range calls(f, func(n string) bool { return strings.HasSuffix(n, ".deriveKey") }) {
-			dk = ci
-		}
-		bad := ""
-		if dk == nil {
-			bad = "deriveKey call not found"
-		} else {
-			for _, n := range []int64{-1, 0, 2048, maxIt, maxIt + 1} {
-				e := newEnv()
-				e.bindPath(f, "params.Iterations", n)
-				cut := e.cuts(f)
-				// from the unmarshal of the parameters
-				got := false
-				for _, ci := range callsNamed(f, "pkcs12.unmarshal") {
-					yes, _ := errSuccessEdges(ci.(*ssa.Call))
-					for _, y := range yes {
-						if reach([]*ssa.BasicBlock{y.to()}, cut)[dk.Block()] {
-							got = true
-						}
-					}
-				}
-				if got != (n >= 0 && n <= maxIt) {
-					bad = fmt.Sprintf("PBE iterations=%d: key derivation runs=%v", n, got)
-				}
-			}
-		}
-		c.check(bad == "", "C21.iterations", "pbDecrypterFor", f, "PBE iteration count bounded before key derivation", bad)
-	}
-	// ---- fillWithRepeats arithmetic (by interpretation: independent of how the
-	// repetition is written; the shape-based form below is no longer run)
+	// getSafeContents: MAC first, over the bytes that are decoded (interprocedural must-cross)
+	c21MacFirst(c, pk)
+	// verifyMac, pbDecrypt, pbDecrypterFor, fillWithRepeats, decodeBMPString: by
+	// interpretation (pathWalker with helpers of the package followed, byte
+	// contents modelled by c21Sim), so the rules do not depend on how the code
+	// is factored or which equivalent library call it uses
+	c21VerifyMac(c, pk)
+	c21Padding(c, pk)
+	c21Iterations(c, pk)
 	c21Fill(c, pk)
-	if f := c.fnOpt(pk, "fillWithRepeats"); f != nil && false {
-		var rep *ssa.Call
-		for _, ci := range callsNamed(f, "bytes.Repeat") {
-			rep = ci.(*ssa.Call)
-		}
-		var outSlice *ssa.Slice
-		allInstrs(f, func(in ssa.Instruction) {
-			if sl, ok := in.(*ssa.Slice); ok && rep != nil && sl.X == ssa.Value(rep) {
-				outSlice = sl
-			}
-		})
-		bad := ""
-		if rep == nil || outSlice == nil || outSlice.High == nil {
-			bad = "bytes.Repeat(pattern, n)[:outputLen] shape not found"
-		} else {
-			const v = 64
-			for n := int64(1); n <= 300; n++ {
-				e := newEnv()
-				e.bindLen(f, f.Params[0], n)
-				e.bind(f.Params[1], v)
-				e.solve(f)
-				out, ok1 := e.eval(outSlice.High)
-				cnt, ok2 := e.eval(rep.Call.Args[1])
-				want := v * ((n + v - 1) / v)
-				if !ok1 || !ok2 || out != want || cnt*n < out {
-					bad = fmt.Sprintf("pattern of %d bytes, v=64: output length %d (ok=%v), repeat count %d (ok=%v); RFC 7292 B.2 requires v*ceil(len/v) = %d", n, out, ok1, cnt, ok2, want)
-					break
-				}
-			}
-			// empty pattern -> nil
-			e := newEnv()
-			e.bindLen(f, f.Params[0], 0)
-			e.solve(f)
-			if e.reach[rep.Block()] {
-				bad = "an empty pattern reaches the repeat (division by zero)"
-			}
-		}
-		c.check(bad == "", "C21.kdf-fill", "fillWithRepeats", f, "v*ceil(len/v) bytes for every pattern length 1..300 (v=64); empty pattern gives nil", bad)
-	}
-	if f := c.fn(pk, "decodeBMPString"); f != nil {
-		bad := ""
-		var idx []ssa.Instruction
-		allInstrs(f, func(in ssa.Instruction) {
-			if ia, ok := in.(*ssa.IndexAddr); ok {
-				if k, okk := constInt(ia.Index); okk && k == 1 {
-					idx = append(idx, ia)
-				}
-			}
-		})
-		if len(idx) == 0 {
-			bad = "pair indexing not found"
-		}
-		for _, n := range []int64{1, 3, 5} {
-			e := newEnv()
-			e.bindLen(f, f.Params[0], n)
-			e.solve(f)
-			for _, i := range idx {
-				if e.reach[i.Block()] {
-					bad = fmt.Sprintf("odd length %d reaches pair indexing", n)
-				}
-			}
-		}
-		c.check(bad == "", "C21.bmp", "decodeBMPString", f, "odd-length input is rejected before pairs are indexed", bad)
-	}
+	c21BMP(c, pk)
 }
